@@ -185,6 +185,24 @@ def install(boundscheck: bool = True):
     import pyarrow
 
     _disp.Dispatcher.enable_caching = lambda self: None  # no on-disk cache, ever
+
+    # JIT compilation runs library Python code (overloads, typing helpers) the first time a
+    # signature is seen in a process: statement-level tracing (executor.LineTracer) is suspended
+    # for its duration, so that line counts do not depend on what a worker compiled before
+    _base = _disp._DispatcherBase
+    _real_cfa = _base._compile_for_args
+
+    def _compile_for_args_untraced(self, *a, **k):
+        tr = sys.gettrace()
+        if tr is None:
+            return _real_cfa(self, *a, **k)
+        sys.settrace(None)
+        try:
+            return _real_cfa(self, *a, **k)
+        finally:
+            sys.settrace(tr)
+
+    _base._compile_for_args = _compile_for_args_untraced
     try:
         pyarrow.set_cpu_count(1)
         pyarrow.set_io_thread_count(1)
